@@ -343,6 +343,72 @@ fn run(ctx: &mut Ctx) {
         }
         ctx.count("run numbers checked");
     });
+    // ---- history independence: the same (run, board, chip, channel) must map alike whatever was asked before.
+    // Reference tables are computed run-major in a fresh thread; the monitored calls then go board-major and
+    // zig-zag across the epoch boundaries (a cache keyed too coarsely would serve a stale answer).
+    let hist_runs: Vec<u32> = vec![5000, 10418, 4417, 4418, 10417, 10418, u32::MAX, 0, 5000, 2940, 20000, 10417, u32::MAX - 1, 4418];
+    ctx.cases("map-history", 71, |ctx, bi, rng| {
+        let b = pwb[bi as usize];
+        let runs = hist_runs.clone();
+        let table: Vec<Option<(usize, usize)>> = match fresh_thread(move || {
+            let a = AfterId::try_from('B').unwrap();
+            let pc = PadChannelId::try_from(17).unwrap();
+            runs.iter().map(|r| TpcPadPosition::try_new(*r, b, a, pc).ok().map(|p| (usize::from(p.column), usize::from(p.row)))).collect()
+        }) {
+            Ok(t) => t,
+            Err(p) => {
+                ctx.panic_violation("TpcPadPosition::try_new", &p, json!({"board": b.name()}));
+                return;
+            }
+        };
+        let a = AfterId::try_from('B').unwrap();
+        let pc = PadChannelId::try_from(17).unwrap();
+        // in-thread, adversarial order: each run right after each other run
+        let n = hist_runs.len();
+        for x in 0..n {
+            for y in 0..n {
+                for k in [x, y] {
+                    ctx.eval();
+                    let got = TpcPadPosition::try_new(hist_runs[k], b, a, pc).ok().map(|p| (usize::from(p.column), usize::from(p.row)));
+                    // must also be composed of the board map and the pad map
+                    let comp = TpcPwbPosition::try_new(hist_runs[k], b).ok().map(|bp| {
+                        let pp = PwbPadPosition::try_new(hist_runs[k], a, pc).unwrap();
+                        let tp = TpcPadPosition::new(bp, pp);
+                        (usize::from(tp.column), usize::from(tp.row))
+                    });
+                    if got != table[k] || got != comp {
+                        ctx.violation("pad position of a (run, board, chip, channel) depends on the calls made before", format!("board {} run {} asked after run {}: got {:?}, fresh thread {:?}, composition {:?}", b.name(), hist_runs[k], hist_runs[if k == x { y } else { x }], got, table[k], comp), json!({"board": b.name(), "run": hist_runs[k]}));
+                        return;
+                    }
+                }
+            }
+        }
+        // wires: same idea over the wire-map boundary
+        let wb = a16[(bi % 8) as usize];
+        let ch = Adc32ChannelId::try_from(rng.below(32) as u8).unwrap();
+        for r in [5000u32, 2940, 2941, u32::MAX, 0, 2723, 2724, 5000] {
+            ctx.eval();
+            let got = TpcWirePosition::try_new(r, wb, ch).ok().map(usize::from);
+            let fresh = fresh_thread(move || TpcWirePosition::try_new(r, wb, ch).ok().map(usize::from)).ok().flatten();
+            if got != fresh {
+                ctx.violation("wire position depends on the calls made before", format!("run {}", r), json!({"run": r}));
+                return;
+            }
+        }
+        ctx.count("boards checked for history independence of the maps");
+    });
+    // names with a sign / leading zeros between the prefix and the number (integer-parsing shortcuts accept them)
+    ctx.cases("numeric-names", 1, |ctx, _i, _rng| {
+        for st in ["CBF01", "CBF+1", "CBF001", "CBF+01", "CBF004", "CBF 1", "CBF1 ", "CBF-1", "CBF0", "CBF5", "PC+0", "PC 0", "PC-0", "PC0", "PC000", "PC+00", "C09+", "C09-", "B09+", "C+9A", "C 9A", "C9A", "C009A", "SEQ02", "SEQ+2", "C09 A", "C0910", "C0900", "C09a", "C09g", "B09a", "PC1", "PC001"] {
+            ctx.eval();
+            let e = if st.len() == 4 && st.is_ascii() { spec(&[st.as_bytes()[0], st.as_bytes()[1], st.as_bytes()[2], st.as_bytes()[3]]) } else { None };
+            match guard(|| (got(st), specific_ok(st, &got(st)))) {
+                Ok((g, ok)) if g == e && ok => ctx.count("numeric-looking names handled per the grammar"),
+                Ok((g, ok)) => ctx.violation("undocumented bank name accepted", format!("{:?}: got {:?}, grammar {:?}, specific parsers consistent: {}", st, g, e, ok), json!({"name": st})),
+                Err(p) => ctx.panic_violation("bank name parser", &p, json!({"name": st})),
+            }
+        }
+    });
     // the full pad map of the simulation must equal run 5000 pad by pad
     ctx.cases("sim5000", 71, |ctx, i, _rng| {
         let b = pwb[i as usize];
